@@ -31,8 +31,11 @@ REPO = "/repo"
 GCMODEL = os.path.join(LEAN, ".lake", "build", "bin", "gcmodel")
 ALLOWED_AXIOMS = {"propext", "Classical.choice", "Quot.sound"}
 FORBIDDEN = re.compile(
-    r"\b(sorry|admit|native_decide|bv_decide|implemented_by|unsafe )|^\s*(private |protected |@\[[^\]]*\]\s*)*axiom\b"
-    r"|maxHeartbeats 0|decide \+native|@\[extern|@\[csimp", re.M
+    r"\b(sorry|admit|native_decide|bv_decide|implemented_by)\b|\bunsafe\s+(def|inductive|structure|instance|abbrev|opaque|theorem|example|class|axiom|mutual|partial)\b|^\s*(private |protected |@\[[^\]]*\]\s*)*axiom\b"
+    r"|maxHeartbeats 0|decide \+native|@\[[^\]]*\b(extern|csimp|export)\b|attribute \[[^\]]*\b(extern|csimp|export|implemented_by)\b"
+    # meta-programming that could add declarations without the kernel (none is used by the library;
+    # the audit helper lean/GcArena/Audit/StmtHash.lean is exempt and pinned by hash in the lock)
+    r"|skipKernelTC|\baddDecl\b|\brun_cmd\b|\brun_elab\b|\brun_meta\b|^\s*(builtin_)?initialize\b|^\s*elab(_rules)?\b|set_option\s+debug\.", re.M
 )
 NCPU = min(16, os.cpu_count() or 4)
 
@@ -127,35 +130,77 @@ def lean_obligations(prop):
     return _apply_lock(prop, main)
 
 
+def lean_import_closure(mods):
+    """The modules of this library that `mods` import, transitively (leanchecker replays only the
+    declarations of the modules it is given, so the imported Model / Spec / Proofs modules are
+    named explicitly)."""
+    seen, todo = [], list(mods)
+    while todo:
+        m = todo.pop()
+        if m in seen or not m.startswith("GcArena"):
+            continue
+        path = os.path.join(LEAN, *m.split(".")) + ".lean"
+        if not os.path.exists(path):
+            continue
+        seen.append(m)
+        todo += re.findall(r"^import\s+(GcArena[\w.]*)", open(path).read(), flags=re.M)
+    return sorted(seen)
+
+
 def _apply_lock(prop, res):
-    """lib/obligations.lock.json lists, per property, the theorem names that make up the claim.  A
-    listed theorem that is no longer there (deleted or renamed to make a build pass) is an open
-    obligation: the property is then no longer shown to hold."""
+    """lib/obligations.lock.json lists, per property, the theorem names that make up the claim and,
+    under "_stmt", a structural hash of each theorem's statement and of the definitions it rests on
+    (lean/GcArena/Audit/StmtHash.lean, itself pinned under "_audit_sha256").  Everything here fails
+    CLOSED: a missing or unreadable lock, a property without an entry, a locked theorem that is no
+    longer there, a theorem of Props/ that is not in the lock, a missing pinned or computed hash, a
+    hash that differs, or an edited audit helper is an open obligation — the property is then no
+    longer shown to hold."""
     path = os.path.join(ROOT, "lib", "obligations.lock.json")
-    if not os.path.exists(path):
-        return res
+    opened = []
     try:
-        lock = json.load(open(path)).get(prop, [])
-    except Exception:
-        return res
-    have = {t["name"] for t in res.get("theorems", [])} | set(res.get("open", []))
-    missing = [n for n in lock if n not in have]
-    if missing and res.get("build_ok"):
-        res["open"] = res.get("open", []) + [m + " (listed in obligations.lock.json, no longer present)" for m in missing]
-        res["obligations"] += len(missing)
-    # the lock also pins WHAT each theorem says: a structural hash of the elaborated statement and
-    # of every GcArena definition it rests on (lean/GcArena/Audit/StmtHash.lean).  A theorem that
-    # still has its name but no longer its statement does not discharge the locked obligation.
+        full = json.load(open(path))
+    except Exception as e:
+        full = None
+        opened.append(f"lib/obligations.lock.json is missing or unreadable ({e})")
+    lock = (full or {}).get(prop)
+    if full is not None and lock is None:
+        opened.append(f"lib/obligations.lock.json has no entry for {prop}")
+    lock = lock or []
+    pinned = (full or {}).get("_stmt", {})
+    have = {t["name"] for t in res.get("theorems", [])} | {o.split(" ")[0] for o in res.get("open", [])}
+    for m in lock:
+        if m not in have:
+            opened.append(m + " (listed in obligations.lock.json, no longer present)")
     try:
-        pinned = json.load(open(path)).get("_stmt", {})
+        audit_sha = hashlib.sha256(open(os.path.join(LEAN, "GcArena", "Audit", "StmtHash.lean"), "rb").read()).hexdigest()
     except Exception:
-        pinned = {}
+        audit_sha = None
+    if full is not None and full.get("_audit_sha256") != audit_sha:
+        opened.append("lean/GcArena/Audit/StmtHash.lean differs from the version the lock was made with (statement pins cannot be trusted)")
+    compared = 0
     for t in res.get("theorems", []):
-        want = pinned.get(t["name"])
-        if want is not None and t.get("stmt") is not None and str(want) != str(t["stmt"]) and t.get("ok"):
+        name, want, got = t["name"], pinned.get(t["name"]), t.get("stmt")
+        why = None
+        if full is not None and name not in lock:
+            why = "is not listed in obligations.lock.json (added without re-locking: run lib/mklock.py)"
+        elif want is None:
+            why = "has no pinned statement hash in obligations.lock.json"
+        elif got is None:
+            why = "statement hash could not be computed on this run"
+        elif str(want) != str(got):
+            why = "its statement, or a definition the statement rests on, differs from the one accepted in obligations.lock.json"
+        else:
+            compared += 1
+        if why and t.get("ok"):
             t["ok"] = False
             res["discharged"] -= 1
-            res["open"] = res.get("open", []) + [t["name"] + " (its statement, or a definition the statement rests on, differs from the one accepted in obligations.lock.json)"]
+            opened.append(f"{name} ({why})")
+    res["statements_compared"] = compared
+    if opened:
+        res["open"] = res.get("open", []) + opened
+        # every entry of `opened` that is not one of res's own theorems is an additional obligation
+        extra = [o for o in opened if o.split(" ")[0] not in {t["name"] for t in res.get("theorems", [])}]
+        res["obligations"] += len(extra)
     return res
 
 
@@ -178,12 +223,28 @@ def _lean_obligations_one(prop):
     scan += [(LEAN, f) for f in os.listdir(LEAN)]          # the model drivers carry the T1 tie
     for dirpath, f in scan:
         if True:
-            if f.endswith(".lean"):
+            if f.endswith(".lean") and not dirpath.endswith(os.path.join("GcArena", "Audit")):
                 t = open(os.path.join(dirpath, f)).read()
                 t = re.sub(r"/-.*?-/", "", t, flags=re.S)
                 t = re.sub(r"--.*", "", t)
                 for m in FORBIDDEN.finditer(t):
                     res["forbidden"].append(f"{f}: {m.group(0).strip()}")
+    # the regenerated tables are excluded from the statement pins, so they must be nothing but data:
+    # exactly the eight table modules, no theorems / instances / functions / control flow
+    gdir = os.path.join(LEAN, "GcArena", "Generated")
+    allowed = {"BrandFlow.lean", "BrandTable.lean", "CallGraph.lean", "CollectTable.lean", "DerefWriteTable.lean",
+               "MacroImpls.lean", "PacingConsts.lean", "SigTable.lean"}
+    for f in sorted(os.listdir(gdir)) if os.path.isdir(gdir) else []:
+        if f not in allowed:
+            res["forbidden"].append(f"Generated/{f}: unexpected file among the regenerated tables")
+            continue
+        t = open(os.path.join(gdir, f)).read()
+        t = re.sub(r"/-.*?-/", "", t, flags=re.S)
+        t = re.sub(r"--.*", "", t)
+        t = re.sub(r'"(?:[^"\\]|\\.)*"', '""', t)
+        m = re.search(r"^\s*(theorem|lemma|instance|axiom|macro|syntax|notation|attribute|elab|set_option)\b|\b(fun|match|if|then|else|by)\b", t, flags=re.M)
+        if m:
+            res["forbidden"].append(f"Generated/{f}: `{m.group(0).strip()}` — a regenerated table must be literal data")
     ok, out = build_lean([f"GcArena.Props.{prop}", "GcArena.Audit.StmtHash"])
     res["build_ok"] = ok
     res["build_log"] = out[-4000:]
@@ -470,12 +531,15 @@ def main(argv):
     ob["leanchecker"] = None
     if tier == "thorough" and ob["build_ok"] and shutil.which("leanchecker"):
         tlc = time.time()
-        rc_lc, out_lc = run(["lake", "env", "leanchecker"] + ob["module"].split(), cwd=LEAN, timeout=3600)
+        rc_lc, out_lc = run(["lake", "env", "leanchecker"] + lean_import_closure(ob["module"].split()), cwd=LEAN, timeout=3600)
         ob["leanchecker"] = dict(rc=rc_lc, seconds=round(time.time() - tlc, 1), output=out_lc[-600:])
         log(f"[lean] leanchecker {ob['module']}: rc={rc_lc} in {ob['leanchecker']['seconds']}s")
         if rc_lc != 0:
             lean_ok = False
             ob["open"] = ob["open"] + [f"leanchecker rejected {ob['module']}"]
+    elif tier == "thorough" and ob["build_ok"]:
+        lean_ok = False
+        ob["open"] = ob["open"] + ["leanchecker is not on PATH: the thorough tier's independent kernel replay did not run"]
     if ob["forbidden"]:
         log(f"[lean] forbidden tokens: {ob['forbidden'][:5]}")
     okm, outm = build_lean(["gcmodel"])
@@ -715,7 +779,7 @@ def main(argv):
         static=(static_res or {}).get("summary"),
         explanation="Lean theorems about the executable model + differential correspondence of that model with the implementation",
         repo_state=repo_state(),
-        statements_pinned=sum(1 for t in ob["theorems"] if t.get("stmt")),
+        statements_pinned=ob.get("statements_compared", 0),
     )
     ev = dict(property_id=prop, tier=tier, seed=seed, level=level, coverage=coverage,
               assumptions=(["soundness of rustc's borrow/region/trait checking", "the global allocator honours layouts"]
